@@ -82,7 +82,8 @@ DrawAndConstruct ==
   /\ pc = "draw"
   /\ LET drawn == IntInRange(1, lo, hi, bytes) IN
      out' = IF drawn.k = "panic" \/ ~(drawn.v \in Dom(D.ty)) THEN PanicOut
-            ELSE LET made == OpCtor(D, drawn.v, <<>>) IN IF IsOk(made) THEN made ELSE PanicOut
+            ELSE LET made == OpCtor(D, drawn.v, <<>>) IN
+                 IF IsOk(made) THEN made ELSE IF D.san # <<>> THEN ArbErrOut ELSE PanicOut
   /\ pc' = "done"
   /\ UNCHANGED <<di, bytes, i, lo, hi>>
 
@@ -92,8 +93,9 @@ ADone == pc = "done"
 
 \* candidate defects of the transcription (DESIGN.md section 7, #6 and the sanitizer case found by this model)
 \* (the precedence candidate of operator spellings is repaired: fix 2f72c78)
+\* (the sanitizer candidate found by this model is repaired too: a rejected draw is an arbitrary::Error)
 HasSanitizer(d) == d.san # <<>>
-Known(d) == HasSanitizer(d) /\ d.vmode = "std"
+Known(d) == FALSE
 
 StepFormAgrees == ADone => out = OpArbInt(D, 1, TMin(D.ty), TMax(D.ty), bytes)
 
